@@ -98,6 +98,11 @@ type Result struct {
 	KnownHits   map[string]int        // known-finding id -> count
 	KnownWit    map[string]*Violation // witnesses
 	HarnessErr  error
+	// DeadlineCut is set when an internal deadline stopped a search before its depth bound: the run
+	// is then reported with exhaustive:false and non-vacuity requirements are not enforced (an
+	// internal deadline is never a failure).
+	DeadlineCut bool
+	requireMsgs []string
 	// ReplayKind tells the replayer which sub-system a violation path belongs to.
 	ReplayKind string
 }
@@ -128,6 +133,9 @@ func (r *Result) Absorb(name string, rep *Report) {
 	cov["search/"+name] = sub
 	if ex, ok := cov["exhaustive"].(bool); !ok || ex {
 		cov["exhaustive"] = rep.Exhaustive
+	}
+	if !rep.Exhaustive {
+		r.DeadlineCut = true
 	}
 	smp, _ := cov["samples"].([]any)
 	for _, s := range rep.Samples {
@@ -161,9 +169,10 @@ func (r *Result) AddSample(s any) {
 
 // Require asserts a non-vacuity condition; failing it is a harness error, never a violation.
 func (r *Result) Require(cond bool, format string, args ...any) {
-	if !cond && r.HarnessErr == nil {
-		r.HarnessErr = fmt.Errorf("non-vacuity requirement failed: "+format, args...)
+	if cond {
+		return
 	}
+	r.requireMsgs = append(r.requireMsgs, fmt.Sprintf(format, args...))
 }
 
 // OutcomeCount sums histogram entries of search `name` whose key has the given prefix.
@@ -235,6 +244,17 @@ func Finish(rc *RunCtx, res *Result, level string, verifDir string) int {
 		ev.Coverage["paths_cut_by_known_findings"] = kc
 	}
 	code := 0
+	if ex, ok := ev.Coverage["exhaustive"].(bool); ok && !ex {
+		res.DeadlineCut = true
+	}
+	if len(res.requireMsgs) > 0 {
+		if res.DeadlineCut {
+			ev.Coverage["non_vacuity_not_enforced_after_deadline"] = res.requireMsgs
+			fmt.Printf("NOTE property=%s internal deadline reached before the depth bound; evidence says exhaustive=false\n", rc.Property)
+		} else if res.HarnessErr == nil {
+			res.HarnessErr = fmt.Errorf("non-vacuity requirement failed: %s", res.requireMsgs[0])
+		}
+	}
 	if res.HarnessErr != nil && len(res.Violations) == 0 {
 		// a non-vacuity failure next to a violation is a consequence of the cut paths: the violation wins
 		ev.Coverage["harness_error"] = res.HarnessErr.Error()
